@@ -712,7 +712,7 @@ class Header:
             check_contiguity=check_contiguity,
         )
         frame = "pulsarcentric" if header.get("pulsarcentric") else "topocentric"
-        frame = "barycentric" if header.get("barycentric") else "topocentric"
+        frame = "barycentric" if header.get("barycentric") else frame
         hdr_update = {
             "data_type": params.data_types[header.get("data_type", 1)],
             "telescope": sigproc.telescope_ids.inv.get(
@@ -792,7 +792,7 @@ class Header:
         """
         header = fbh5.parse_header(filename)
         frame = "pulsarcentric" if header.get("pulsarcentric") else "topocentric"
-        frame = "barycentric" if header.get("barycentric") else "topocentric"
+        frame = "barycentric" if header.get("barycentric") else frame
         hdr_update = {
             "data_type": params.data_types[header.get("data_type", 1)],
             "telescope": sigproc.telescope_ids.inv.get(
